@@ -206,6 +206,7 @@ type planWriter struct {
 	pos, end int      // data-only: next index in seg.ts, exclusive end
 	writes   int
 	replay   []int64 // timestamps to write again (re-ingest of a wiped segment)
+	replayed bool    // re-ingesting writer: writes the wiped timestamps and nothing beyond
 }
 
 const vSlot = 1000
@@ -352,6 +353,7 @@ func (p *planner) openWriter() bool {
 		if again != nil {
 			w.start = again.start
 			w.replay = append([]int64(nil), again.ts...)
+			w.replayed = true
 		}
 		// abut the previous slot's data exactly (end == next start) when possible
 		for _, s := range g.segs {
@@ -405,6 +407,9 @@ func (p *planner) write(w *planWriter) bool {
 		}
 		ts = append(ts, w.seg.ts[w.pos:w.pos+n]...)
 		w.pos += n
+	} else if w.replayed && len(w.replay) == 0 {
+		// the range after the wiped segment may be occupied by a writer that abutted it
+		return false
 	} else if len(w.replay) > 0 {
 		if n > len(w.replay) {
 			n = len(w.replay)
